@@ -368,8 +368,51 @@ def _pipeline_wiring(chk):
             ["hiten.algorithms.hamiltonian.pipeline:HamiltonianPipeline.get_lie_expansions"], "B4 exact evaluation", th)
 
 
+def _series_length(chk):
+    """The Lie series exp(L_G) X is a FINITE sum at truncation degree N: the k-fold bracket of a coordinate (degree 1) with a
+    generator of degree g has degree 1 + k (g - 2), so every k <= (N - 1) // (g - 2) can contribute - the real function must
+    apply at least that many brackets, for every N and g (counted with the bracket replaced by a recorder)"""
+    import hiten.algorithms.hamiltonian.center._lie as cl
+    import hiten.algorithms.polynomial.base as pb
+    from numba.typed import List
+
+    def th():
+        psi, clmo, enc = pb._PSI_GLOBAL, pb._CLMO_GLOBAL, pb._ENCODE_DICT_GLOBAL
+        saved = cl._polynomial_poisson_bracket
+        count = []
+
+        def bracket(P, G, N, *a):
+            count.append(1)
+            return P
+        cl._polynomial_poisson_bracket = bracket
+        try:
+            for N in range(3, 15):
+                for g in range(3, N + 1):
+                    X_ = List()
+                    G_ = List()
+                    for d in range(N + 1):
+                        X_.append(pb._make_poly(d, psi))
+                        G_.append(pb._make_poly(d, psi))
+                    X_[1][0] = 1.0
+                    G_[g][0] = 1.0
+                    count.clear()
+                    cl._apply_coord_transform(X_, G_, N, psi, clmo, enc, 1e-30)
+                    need = (N - 1) // (g - 2)
+                    if len(count) < need:
+                        raise Refuted(f"_apply_coord_transform applies {len(count)} brackets at truncation degree {N} for a generator "
+                                      f"of degree {g}; terms up to k = {need} have degree 1 + k*{g - 2} <= {N} and are dropped",
+                                      "the Lie series is cut before its last contributing term",
+                                      inputs={"N": N, "deg_G": g, "brackets_applied": len(count), "brackets_needed": need})
+        finally:
+            cl._polynomial_poisson_bracket = saved
+    chk.obl("_apply_coord_transform: for every truncation degree 3 <= N <= 14 and generator degree 3 <= g <= N at least "
+            "(N - 1) // (g - 2) brackets are applied (no contributing term of the Lie series is dropped)",
+            "K2 loop bound (bracket replaced by a recorder)", [CL + ":_apply_coord_transform"], "B4 exact evaluation", th)
+
+
 def run(chk):
     loader.install()
+    _series_length(chk)
     thorough = chk.tier == "thorough"
     chk.under_contract(LI + ":_solve_homological_equation", LI + ":_apply_poly_transform",
                        CL + ":_select_terms_for_elimination", CL + ":_lie_transform", CL + ":_lie_expansion",
